@@ -212,7 +212,8 @@ def cbuilder(doc, r, unit_str):
                 clist([f'({p})%Z' for p in c['powers']]), clist([cqf(h) for h in c['coeffs']]),
                 copt(None if not c.get('var') else clist([cqf(h) for h in c['var']])), cps(c.get('comment', ''))))
     # CIF._assemble_authors creates a fresh id generator on every call (since /repo 54bf630): the ids of every
-    # save start at 1, also when the same builder is saved twice (the harness returns the text of the LAST save)
+    # save start at 1.  The starting state is not part of the property (ids must be consistent within ONE file, for any
+    # starting state): Check.check_builder reads the first id from the text and uses this value only as default.
     first = 1
     comment = doc['override_comment'] if doc.get('override_comment') else doc.get('comment', '')
     return f'mkbcase {cps(doc["name"])} {cps(comment)} {clist(calls)} {first} {coutcome(r)}'
